@@ -46,7 +46,7 @@ def _with(grid, **opts):
 
 
 # ------------------------------------------------------------------ representation
-@scenario('C01', 'repr', lambda tier: _with(_grid(tier, 24, 120), cplx=[False, True]))
+@scenario('C01', 'repr', lambda tier: _with(_grid(tier, 24, 120), cplx=[False, True, 'last']))
 def repr_ops(ctx, shape, cplx):
     """full / matricize / element / copy / conj / transpose / scalar multiples"""
     TT = ctx.R.TT
@@ -103,8 +103,11 @@ def _add_grid(tier):
         if other != s['ranks']:
             alts.append(other)
         for rb in alts:
-            for ca, cb in ((False, False), (True, False), (False, True), (True, True)):
+            for ca, cb in ((False, False), (True, False), (False, True), (True, True), ('last', False), (False, 'last'), ('first', 'last'),
+                           ('inner', False)):
                 if tier == 'quick' and (ca, cb) == (True, True) and not is_edge(s):
+                    continue
+                if d == 1 and isinstance(ca, str) or isinstance(cb, str) and d == 1:
                     continue
                 out.append({'shape': s, 'ranks_b': rb, 'cplx_a': ca, 'cplx_b': cb})
     return out
@@ -139,8 +142,10 @@ def _mm_grid(tier):
         # right operand: rows = cols of left; its cols alternate between vector and operator shapes
         for cols_b in ([1] * d, [2 if (j + i) % 2 else 1 for j in range(d)]):
             rb = [1] + [1 + (j + i) % 2 for j in range(d - 1)] + [1]
-            for ca, cb in ((False, False), (True, False), (True, True)):
+            for ca, cb in ((False, False), (True, False), (True, True), ('last', False), (False, 'first')):
                 if tier == 'quick' and ca and cb and not is_edge(s):
+                    continue
+                if d == 1 and (isinstance(ca, str) or isinstance(cb, str)):
                     continue
                 out.append({'shape': s, 'cols_b': cols_b, 'ranks_b': rb, 'cplx_a': ca, 'cplx_b': cb})
     return out
